@@ -52,30 +52,9 @@ def fam_loops():
     out.append(("lp_named_neg_step", HEADER + "stp = -2\nwhile True:\n    vn = d0.Setting\n    acc = 0\n    for idx in range(5, vn, stp):\n        acc = acc + idx\n        d1.Setting = idx\n    d2.Setting = acc\n    yield_()\n"))
     out.append(("lp_named_pos_step", HEADER + "stp = 2\nlim = 5\nwhile True:\n    vn = d0.Setting\n    for idx in range(vn, lim, stp):\n        d1.Setting = idx\n    yield_()\n"))
     out.append(("lp_boundexpr_main", _loop("vn = d0.Setting\nacc = 0\nfor idx in range(vn * 2 + 1):\n    acc += (idx + 1) * (idx + 2)\nd1.Setting = acc")))
-    out.append(("lp_stmt_before_break", _loop("cnt = 0
-while cnt < 6:
-    cnt = cnt + 1
-    if cnt > d0.Setting:
-        d2.Setting = cnt
-        break
-    d1.Setting = cnt
-d3.Setting = cnt")))
-    out.append(("lp_break_in_nested_if", _loop("cnt = 0
-while cnt < 4:
-    cnt = cnt + 1
-    if cnt > d0.Setting:
-        d2.Setting = cnt
-        if cnt > 2:
-            d3.On = 1
-            break
-    d1.Setting = cnt
-d3.Setting = cnt")))
-    out.append(("lp_for_stmt_before_break", _loop("for idx in range(4):
-    if idx > d0.Setting:
-        d2.Setting = idx
-        break
-    d1.Setting = idx
-d3.On = 1")))
+    out.append(("lp_stmt_before_break", _loop("cnt = 0\nwhile cnt < 6:\n    cnt = cnt + 1\n    if cnt > d0.Setting:\n        d2.Setting = cnt\n        break\n    d1.Setting = cnt\nd3.Setting = cnt")))
+    out.append(("lp_break_in_nested_if", _loop("cnt = 0\nwhile cnt < 4:\n    cnt = cnt + 1\n    if cnt > d0.Setting:\n        d2.Setting = cnt\n        if cnt > 2:\n            d3.On = 1\n            break\n    d1.Setting = cnt\nd3.Setting = cnt")))
+    out.append(("lp_for_stmt_before_break", _loop("for idx in range(4):\n    if idx > d0.Setting:\n        d2.Setting = idx\n        break\n    d1.Setting = idx\nd3.On = 1")))
     out.append(("lp_nested", _loop("acc = 0\nfor ia in range(2):\n    for ib in range(3):\n        acc = acc + ia * ib\nd0.Setting = acc")))
     out.append(("lp_nested_dev", _loop("vn = d0.Setting\nacc = 0\nfor ia in range(2):\n    for ib in range(2):\n        acc = acc + vn + ia\nd1.Setting = acc")))
     out.append(("lp_while_break", _loop("cnt = 0\nwhile True:\n    cnt = cnt + 1\n    if cnt > d0.Setting:\n        break\n    if cnt > 3:\n        break\nd1.Setting = cnt")))
@@ -169,12 +148,7 @@ def fam_lists():
     out.append(("ls_for_dups", _loop("acc = 0\nfor val in [10, 20, 20, 35]:\n    acc = acc + val\n    d0.Setting = val")))
     out.append(("ls_for_modifies_var", _loop("base = d1.Setting\nfor lev in [10, 20, 20, 35]:\n    lev += base\n    d0.Setting = lev")))
     out.append(("ls_for_in_function", HEADER + "def fa(xa):\n    acc = xa\n    for val in [3, 5, 5]:\n        acc = acc + val\n        d1.Setting = acc\n    return acc\nwhile True:\n    d2.Setting = fa(d0.Setting) + fa(1)\n    yield_()\n"))
-    out.append(("ls_for_break", _loop("for val in [3, 5, 9]:
-    if val > d0.Setting:
-        d2.Setting = val
-        break
-    d1.Setting = val
-d3.On = 1")))
+    out.append(("ls_for_break", _loop("for val in [3, 5, 9]:\n    if val > d0.Setting:\n        d2.Setting = val\n        break\n    d1.Setting = val\nd3.On = 1")))
     out.append(("ls_for_hashes", _loop('for nh in [HASH("O2"), HASH("N2")]:\n    d0.Setting = nh')))
     return out
 
